@@ -1054,7 +1054,7 @@ def rule_g12(F):
     identifier together - `ResolvedName`), never because of how the identifier is spelled.  Scripts may declare `record Prefix {..}`
     or `enum Option[T] {..}` of their own; those live in the package scope and have nothing to do with the built-ins.  So every
     comparison the signature gate makes on a type name compares whole `ResolvedName`s / `Type`s; the bare `.ident` is never compared."""
-    r = RuleResult("C04.G12", "the signature gate compares type names as resolved names (scope + identifier), never the bare identifier", floor=3)
+    r = RuleResult("C04.G12", "the signature gate compares type names as resolved names (scope + identifier), never the bare identifier", floor=1)  # a search rule: the count is the number of comparisons examined, which helpers merge
     bodies = [b for b in F.bodies_in(["src/codegen/check.rs"]) if b.hir and "::tests::" not in b.path]
     if not bodies:
         r.missing("bodies of src/codegen/check.rs")
